@@ -168,6 +168,7 @@ static void on_signal(int sig) {
   signal(sig, SIG_DFL);
   raise(sig);
 }
+void crash_now(const char* what) { emit_crash(what); g_ended = true; _exit(3); }
 static void on_exit_hook() { if (!g_ended) emit_crash("exit() called by code under test"); }
 extern "C" void __asan_on_error() { emit_crash("sanitizer report"); }
 void install_crash_handlers() {
